@@ -233,6 +233,8 @@ def iocb_history(run, rng, nclients, nservers, nreq):
     reqs = {}
     token = 6000
     unconfirmed = 0
+    abandoned = 0
+    abandoned_active = 0
     try:
         remaining = [nreq] * nclients
         while any(remaining):
@@ -242,9 +244,27 @@ def iocb_history(run, rng, nclients, nservers, nreq):
                 token += 1
                 si = rng.randrange(nservers)
                 servers[si].app.behaviour[token] = ("ack", rng.choice([0, 5, 50]), rng.choice([0, 0.3, 1.0, 2.0]))
-                c.send(c.cpt_request(servers[si].address, token, rng.choice([0, 5, 50])), token)
-                reqs[token] = {"client": ci, "server": si, "t_req": CLOCK.now}
+                iocb = c.send(c.cpt_request(servers[si].address, token, rng.choice([0, 5, 50])), token)
+                reqs[token] = {"client": ci, "server": si, "t_req": CLOCK.now, "iocb": iocb}
                 remaining[ci] -= 1
+            # the application gives up on a request that is still waiting in the queue of its peer (another one is in flight)
+            if rng.random() < 0.35:
+                from bacpypes.iocb import PENDING
+                waiting = [t for t, r in reqs.items() if r["iocb"].ioState == PENDING and not r.get("abandoned")]
+                if waiting:
+                    t = rng.choice(waiting)
+                    reqs[t]["abandoned"] = True
+                    reqs[t]["iocb"].abort(RuntimeError("given up"))
+                    abandoned += 1
+            # ... or on the one that is in flight
+            if rng.random() < 0.15:
+                from bacpypes.iocb import ACTIVE
+                flying = [t for t, r in reqs.items() if r["iocb"].ioState == ACTIVE and not r.get("abandoned")]
+                if flying:
+                    t = rng.choice(flying)
+                    reqs[t]["abandoned"] = "in-flight"
+                    reqs[t]["iocb"].abort(RuntimeError("given up"))
+                    abandoned_active += 1
             # unconfirmed traffic of the same application toward the same (and other) peers
             for _ in range(rng.randrange(0, 3)):
                 dest = rng.choice(servers).address
@@ -269,6 +289,8 @@ def iocb_history(run, rng, nclients, nservers, nreq):
         return
     run.count("iocb_requests_submitted", len(reqs))
     run.count("unconfirmed_requests_interleaved", unconfirmed)
+    run.count("queued_requests_given_up", abandoned)
+    run.count("requests_in_flight_given_up", abandoned_active)
     responded = {e["token"]: e["t"] for e in events if e["ev"] == "response" and e.get("token") is not None}
     done = {}
     for e in events:
@@ -282,11 +304,20 @@ def iocb_history(run, rng, nclients, nservers, nreq):
             run.violation("iocb-completed-%s" % ("more-than-once" if cb else "never"), w)
             return
         e = cb[0]
+        if r.get("abandoned") == "in-flight":
+            continue                # it was on the wire already: the peer may or may not answer it; nobody is waiting any more
+        if r.get("abandoned"):
+            if tok in responded or e["outcome"] == "complex-ack":
+                run.violation("request-given-up-while-queued-was-sent-anyway", w)
+                return
+            continue
         if tok in responded and e["outcome"] != "complex-ack":
             run.violation("iocb-ended-without-the-answer-the-peer-sent/" + str(e["outcome"]), w)
             return
         if e.get("answer_token") is not None and e["answer_token"] != tok:
-            run.violation("iocb-completed-with-the-answer-to-another-request", w)
+            given_up = reqs.get(e["answer_token"], {}).get("abandoned") == "in-flight"
+            run.violation("late-answer-to-a-request-given-up-in-flight-completes-the-next-request-to-that-peer" if given_up
+                          else "iocb-completed-with-the-answer-to-another-request", w)
             return
         if tok in responded and e["t"] + 1e-9 < responded[tok]:
             run.violation("iocb-completed-before-its-request-was-answered", w)
@@ -295,7 +326,9 @@ def iocb_history(run, rng, nclients, nservers, nreq):
         run.violation("transactions-left-after-history", dict(wit, n=len(transaction_census())))
         return
     for c in clients:
-        if c.app.queue_by_address:
+        if c.app.queue_by_address and not abandoned_active:
+            # (giving up the request in flight by-passes the application's book-keeping: an idle queue object may stay behind,
+            #  which is residue in the sense of C04, not a crossing)
             run.violation("iocb-queue-entry-left", dict(wit, queues=[str(k) for k in c.app.queue_by_address]))
             return
     run.count("iocb_histories")
